@@ -269,6 +269,24 @@ Proof.
       cbn [andb]. rewrite wrap_u64_small by lia. reflexivity.
 Qed.
 
+(* utils.scale_raw with a non-negative shift that needs no Python integers is the plain product *)
+Lemma mscale_raw_plain ex v k : 0 <= k < 63 ->
+  match v with MI z => Z.abs z * 2^k < 2^63 | MU z => 0 <= z /\ z * 2^k < 2^63 | MF _ => True | MO _ => False end ->
+  mscale_raw ex v k = mscale v k.
+Proof.
+  intros Hk Hv. unfold mscale_raw. replace (k <? 0) with false by lia. cbn [andb].
+  destruct (0 <? k) eqn:Ep; [|reflexivity].
+  assert (P: 0 < 2^k < 2^63) by (split; [apply pow2_pos; lia | apply pow2_lt; lia]). assert (P64: 2^63 < 2^64) by (apply pow2_lt; lia).
+  unfold mscale. replace (0 <=? k) with true by lia.
+  destruct v as [z|z|x|n]; [| |reflexivity|contradiction].
+  - replace (63 <=? k) with false by lia. replace (2^63 <=? Z.abs z * 2^k) with false by lia. cbn [orb].
+    unfold fits_i64. replace (- 2^63 <=? 2^k) with true by lia. replace (2^k <? 2^63) with true by lia. cbn [andb].
+    rewrite wrap_i64_small by (rewrite Z.abs_mul, (Z.abs_eq (2^k)) by lia; lia). reflexivity.
+  - destruct Hv as (Hz0 & Hzk). replace (63 <=? k) with false by lia. rewrite (Z.abs_eq z) by lia. replace (2^63 <=? z * 2^k) with false by lia. cbn [orb].
+    unfold fits_u64. replace (0 <=? 2^k) with true by lia. replace (2^k <? 2^64) with true by lia. cbn [andb].
+    rewrite wrap_u64_small by nia. reflexivity.
+Qed.
+
 Lemma raw_add_exact ex op fx fy cx cy : op <> OpMul -> wf_op fx -> wf_op fy ->
   in_range fx cx -> in_range fy cy ->
   let K := raw_kind op fx fy in let z := exact_int op fx fy cx cy in
